@@ -57,6 +57,9 @@ def read(text):
 Z_VALUES = ['4', '2', '1', '8', '1.5', '4.5', '3', '6', '12', '2.5', '0.5', '0.25']
 
 
+_LAYOUT = [0]
+
+
 def build_file(rng, fvs, atoms, z=None):
     if z is None:
         z = rng.choice(Z_VALUES)
@@ -65,8 +68,15 @@ def build_file(rng, fvs, atoms, z=None):
     unit = [str(rng.choice([4, 8, 12, 20, 36, 40, 6, 2])) for _ in range(n_el)]
     lines = HEADER.format(sfac=' '.join(ELEMS), unit=' '.join(unit)).replace('ZERR 4', 'ZERR %s' % z)
     fl = []
-    for i in range(0, len(fvs), 7):
-        fl.append('FVAR ' + ' '.join(fvs[i:i + 7]))
+    # every second file with more than seven free variables holds them in ONE instruction continued with '=' (no random draw: the streams of
+    # the other generators stay as they were); otherwise one FVAR instruction per seven values
+    _LAYOUT[0] += 1
+    if len(fvs) > 7 and _LAYOUT[0] % 2 == 0:
+        rows = [' '.join(fvs[i:i + 7]) for i in range(0, len(fvs), 7)]
+        fl.append('FVAR ' + ' =\n     '.join(rows))
+    else:
+        for i in range(0, len(fvs), 7):
+            fl.append('FVAR ' + ' '.join(fvs[i:i + 7]))
     body = []
     qp = []
     k = 0
